@@ -269,11 +269,36 @@ def _check_calendar(prog: Program, res: Result):
             self.stack.pop()
 
         def visit_Assign(self, n):
-            li = _list_ints(n.value)
+            v = n.value
+            if isinstance(v, ast.Name) and v.id in prog.modules[fi.module].constants and v.id not in local_names:
+                v = prog.modules[fi.module].constants[v.id]  # a module-level table
+            li = _list_ints(v)
             if li is not None:
                 tables.append((li, list(self.stack), n))
+                if len(n.targets) == 1 and isinstance(n.targets[0], ast.Name):
+                    base_of[n.targets[0].id] = li
+                return
+            # <table>[k] = c under a guard: the table of that branch is the base with element k replaced
+            for t in n.targets:
+                if isinstance(t, ast.Subscript) and isinstance(t.value, ast.Name) and t.value.id in base_of and isinstance(t.slice, ast.Constant) \
+                        and isinstance(n.value, ast.Constant) and isinstance(n.value.value, int) and self.stack:
+                    li2 = list(base_of[t.value.id])
+                    if 0 <= t.slice.value < len(li2):
+                        li2[t.slice.value] = n.value.value
+                        tables.append((li2, list(self.stack), n))
 
+    local_names = {x.id for x in ast.walk(fi.node) if isinstance(x, ast.Name) and isinstance(x.ctx, ast.Store)} | set(fi.params())
+    base_of = {}
     V().visit(fi.node)
+    from ..model import module_container_mutations
+
+    for hq in (q, f"{GL}.first_month_hour", f"{GL}.last_month_hour"):
+        hf = prog.func(hq)
+        muts = module_container_mutations(prog, hf)
+        res.ob("R08.4", f"{hq.split('.')[-1]}: the calendar tables are not shared module state mutated in place", not muts, prog.loc(hf, hf.node))
+        for node_, loc_, g_, how_ in muts:
+            res.violation("R08.4", f"calendar-shared-table|{hq.split('.')[-1]}|{g_}", prog.loc(hf, node_), hq,
+                          f"the month-length table {g_} is module-level and is changed in place ({how_} through {loc_}): after one leap-year evaluation every later call sees the changed table")
     if not tables:
         raise AnalysisError(f"{q}: no literal month-length table")
     want_nonleap = [31] + NONLEAP
@@ -282,10 +307,16 @@ def _check_calendar(prog: Program, res: Result):
     for li, guards, n in tables:
         leap = None
         for test, pol in guards:
-            if ast.unparse(test) in ("leap_year",):
+            t_ = test
+            if isinstance(t_, ast.Name):
+                t_ = next((s_.value for s_ in ast.walk(fi.node) if isinstance(s_, ast.Assign) and len(s_.targets) == 1 and isinstance(s_.targets[0], ast.Name) and s_.targets[0].id == t_.id), t_)
+            # <year parameter> % 4 == 0
+            if isinstance(t_, ast.Compare) and len(t_.ops) == 1 and isinstance(t_.ops[0], ast.Eq) and isinstance(t_.left, ast.BinOp) and isinstance(t_.left.op, ast.Mod) \
+                    and isinstance(t_.left.left, ast.Name) and t_.left.left.id in fi.params() and isinstance(t_.left.right, ast.Constant) and t_.left.right.value == 4 \
+                    and isinstance(t_.comparators[0], ast.Constant) and t_.comparators[0].value == 0:
                 leap = pol
-        if leap is None and len(tables) == 1:
-            leap = False
+        if leap is None and not guards:
+            leap = False  # the table every call starts from
         if leap is False:
             ok = li == want_nonleap
             got_nonleap = True
@@ -414,6 +445,26 @@ def _check_calendar(prog: Program, res: Result):
 
 
 VARIANTS = [
+    Variant("one module-level month table, February patched in place for leap years (seeded C08_b)", "break",
+            [(GL, """    if leap_year:
+        num_days = [31, 31, 29, 31, 30, 31, 30, 31, 31, 30, 31, 30, 31]
+    else:
+        num_days = [31, 31, 28, 31, 30, 31, 30, 31, 31, 30, 31, 30, 31]
+    return num_days[md]""", """    num_days = DAYS_IN_MONTH
+    if leap_year:
+        num_days[2] = 29
+    return num_days[md]"""),
+             (GL, "def monthdays(month, year):", "DAYS_IN_MONTH = [31, 31, 28, 31, 30, 31, 30, 31, 31, 30, 31, 30, 31]\n\n\ndef monthdays(month, year):")], "R08.4"),
+    Variant("one module-level month table, copied before February is patched", "benign",
+            [(GL, """    if leap_year:
+        num_days = [31, 31, 29, 31, 30, 31, 30, 31, 31, 30, 31, 30, 31]
+    else:
+        num_days = [31, 31, 28, 31, 30, 31, 30, 31, 31, 30, 31, 30, 31]
+    return num_days[md]""", """    num_days = DAYS_IN_MONTH
+    if leap_year:
+        num_days = [31, 31, 29, 31, 30, 31, 30, 31, 31, 30, 31, 30, 31]
+    return num_days[md]"""),
+             (GL, "def monthdays(month, year):", "DAYS_IN_MONTH = [31, 31, 28, 31, 30, 31, 30, 31, 31, 30, 31, 30, 31]\n\n\ndef monthdays(month, year):")]),
     Variant("February has 29 days in the non-leap table", "break",
             [(GL, "        num_days = [31, 31, 28, 31, 30, 31, 30, 31, 31, 30, 31, 30, 31]", "        num_days = [31, 31, 29, 31, 30, 31, 30, 31, 31, 30, 31, 30, 31]")], "R08.4"),
     Variant("replication loop omits monthly_peak_cl_day", "break",
